@@ -118,14 +118,16 @@ class Model:
         out = []
 
         def reader():
-            for _ in range(len(lines)):
+            for _ in range(len(lines) + 1):
                 out.append(self.p.stdout.readline().rstrip("\n"))
         t = threading.Thread(target=reader)
         t.start()
-        self.p.stdin.write("".join(x + "\n" for x in lines))
+        self.p.stdin.write("".join(x + "\n" for x in lines) + "FLUSH\n")
         self.p.stdin.flush()
         t.join()
-        return out
+        if out[-1].strip() != "flushed":
+            raise RuntimeError("model driver out of sync: %r" % (out[-3:],))
+        return out[:-1]
 
     def close(self):
         self.p.stdin.close()
@@ -184,6 +186,22 @@ def oracle(run, where, resp, c, w, rjob, mjob, writers_tbl, replay):
     else:
         run.hit("no-state:%s" % where, "response has no known state: %r" % (ret,), replay)
     return state
+
+
+def reachable_shape(s):
+    """Snapshots a workq can serve (C19_error_implies_done and the job class): info is a dict, done is absent
+    or True, error/result are present only when done."""
+    if s is None:
+        return True
+    if not isinstance(s.get("info", {}), dict) or "info" not in s:
+        return False
+    if s.get("done", True) is not True:
+        return False
+    if ("error" in s or "result" in s) and "done" not in s:
+        return False
+    if "done" in s and "error" not in s:
+        return False
+    return True
 
 
 def live_of_snap(s):
@@ -286,6 +304,7 @@ def check(run):
                        "suggested filenames contain no control characters and no lone surrogates (the property's quantifier)",
                        "bottle/WSGI dispatch, collid2qserve routing and the TCP RPC layer are not covered"]
     src = core.snapshot()
+    run.obligation("snapshot of the working tree taken and extensions built", os.path.isdir(src), src)
     gen_out = {}
 
     def gen():
@@ -341,10 +360,14 @@ def _check(run, src, model, writers, writers_tbl):
             dis.append("job id asked %r, expected %r" % (r["asked"], want_asked))
         if any(a not in ("%s:render-%s" % (c["c"], c["w"]), "%s:makezip" % c["c"]) for a in r["asked"]):
             dis.append("do_render_status asked for a foreign job id: %r" % (r["asked"],))
-        st = oracle(run, "snap:" + cc.canon(c)[:300], r, c["c"], c["w"], live_of_snap(c["render"]), live_of_snap(c["makezip"]), writers_tbl,
-                    {"snap_case": c})
+        if reachable_shape(c["render"]) and reachable_shape(c["makezip"]):
+            # the property quantifies over histories: the oracle applies to snapshots a queue can serve
+            st = oracle(run, "snap:" + cc.canon(c)[:300], r, c["c"], c["w"], live_of_snap(c["render"]), live_of_snap(c["makezip"]), writers_tbl,
+                        {"snap_case": c})
+        else:
+            st = "unreachable-shape:" + (r["ret"]["state"] if "ret" in r else "crash")
         dist["snap_states"][st] = dist["snap_states"].get(st, 0) + 1
-        if len(run.samples) < 3 and st == "finished" and c["render"].get("result"):
+        if len(run.samples) < 3 and st == "finished" and c["render"].get("result") and "suggested_filename" in c["render"]["result"]:
             run.sample({"case": c, "real": r.get("ret")})
     run.tie("do_render_status on explicit job snapshots: extracted model vs nserve.Application.do_render_status", len(cases), dis)
 
